@@ -29,7 +29,10 @@ MANIFEST = {
             '`[-1]` variant); file model of the extension sections (rows over the generated column tables, headers, '
             'id<->name table): writing and re-reading gives back the extension and label rows exactly, trigger rows '
             'within 0.5 us (exactly on whole us), the same get_block chains and the same evaluate_labels result, for '
-            'every reachable store. '
+            'every reachable store; read() onto a NON-fresh object: exact post-read store (extension library kept when '
+            'the file has no [EXTENSIONS] section), invariant preserved, a stale extension-library keymap entry cannot '
+            'make add_block resolve to a wrong id, refuted (computed witness) for a reader that keeps the old trigger '
+            'library. '
             'Random label programs (all 21 labels, SET/INC, negative/zero/boolean values, several labels and '
             'triggers/outputs per block, shared/subset/reordered extension sets, mixed with RF/gradient/ADC events) '
             'run on the implementation and on the extracted model: store after every add_block, chains, get_block '
@@ -907,7 +910,7 @@ def corpus():
 
 
 def run(ctx):
-    n_prog = {'quick': 500, 'thorough': 12000}[ctx.tier]
+    n_prog = {'quick': 400, 'thorough': 12000}[ctx.tier]
     pending = []
     for c in corpus():
         run_program(ctx, c, pending)
